@@ -128,7 +128,8 @@ fn env(name: &str) -> Option<&'static str> {
 /// A named point in the link at which the harness may inject a fault
 /// (`WILD_VERIF_CRASH=<name>:<kind>`, kind one of error, panic, abort, segv, kill, exit0) or pause
 /// the link (`WILD_VERIF_PAUSE=<name>:<fifo_out>:<fifo_in>`: writes the name to `fifo_out`, then
-/// blocks until a byte can be read from `fifo_in`). `WILD_VERIF_POINTS=<file>` appends the name of
+/// blocks until a byte can be read from `fifo_in`) or delay the calling thread
+/// (`WILD_VERIF_DELAY=<name>:<milliseconds>`). `WILD_VERIF_POINTS=<file>` appends the name of
 /// every point reached. Returns an error for kind `error`.
 pub fn point(name: &str) -> crate::error::Result {
     if let Some(path) = env("WILD_VERIF_POINTS")
@@ -152,6 +153,13 @@ pub fn point(name: &str) -> crate::error::Result {
                 let _ = f.read(&mut b);
             }
         }
+    }
+    if let Some(spec) = env("WILD_VERIF_DELAY")
+        && let Some((point_name, ms)) = spec.split_once(':')
+        && point_name == name
+        && let Ok(ms) = ms.parse::<u64>()
+    {
+        std::thread::sleep(std::time::Duration::from_millis(ms));
     }
     if let Some(spec) = env("WILD_VERIF_CRASH")
         && let Some((point_name, kind)) = spec.split_once(':')
